@@ -63,7 +63,7 @@ REQUIRED_THEOREMS = [
     "Acn.C05.invoked_at_most_once_ignored", "Acn.C05.runI_invoked_iff", "Acn.C05.runI_invoked_iff_fuelForI",
     "Acn.C05.simI_invoked_core", "Acn.C05.views_faithful_ignored", "Acn.C05.isolation_run_ignored",
 ]
-BUDGET = {"quick": 400, "thorough": 4000, "search": 1200}
+BUDGET = {"quick": 350, "thorough": 4000, "search": 1200}
 TRUSTED = ["copy.deepcopy / numpy array copy semantics (the isolation half is validated by the vandalising "
            "scheduler, not proved: a pure model cannot exhibit aliasing)",
            "CPython heapq contract (a <-minimal entry is popped); dict insertion order",
